@@ -468,6 +468,96 @@ fn rec_wrap(r: &mut VRecorder) -> RecRef<'_> {
     RecRef(r)
 }
 
+/// Saving is side-effect free also when it fails: a recorder that accepts only `cap` bytes (buffer
+/// full / disk full, reported either as Ok(0) or as an error, and partial writes before that) makes
+/// save_snapshot return Err; registers and all RAM of the running machine must be what they were,
+/// and a later save into a good recorder must give the file a save before the failure gives.
+fn failing_recorder(ctx: &Ctx) {
+    struct CapRec {
+        left: usize,
+        err: bool,
+        data: Vec<u8>,
+    }
+    impl rustzx_core::host::DataRecorder for CapRec {
+        fn write(&mut self, buf: &[u8]) -> Result<usize, rustzx_core::error::IoError> {
+            if self.left == 0 {
+                return if self.err { Err(rustzx_core::error::IoError::HostAssetImplFailed) } else { Ok(0) };
+            }
+            let n = buf.len().min(self.left);
+            self.data.extend_from_slice(&buf[..n]);
+            self.left -= n;
+            Ok(n)
+        }
+    }
+    let mut jobs: Vec<(bool, u16, usize, bool)> = Vec::new();
+    for m128 in [false, true] {
+        let total = if m128 { 131103 } else { 49179 };
+        for sp in if m128 { vec![0x8000u16] } else { vec![0x8000u16, 0x4002, 0xFFFF] } {
+            for cap in [0usize, 1, 26, 27, 28, 16384 + 27, total - 1] {
+                for err in [false, true] {
+                    jobs.push((m128, sp, cap, err));
+                }
+            }
+        }
+    }
+    crate::vcore::par_for(jobs.len(), 1, |j| {
+        let (m128, sp, cap, err) = jobs[j];
+        let s = SaveState { m128, pattern: 0, im: 1, iff2: true, border: 3, r: 0x7F, i: 0x80, latch: if m128 { 0x13 } else { 0 }, sp, later_write: None, halted: false };
+        let mut saver = build_saver(&s);
+        let mname = if m128 { "128k" } else { "48k" };
+        let case = json!({"kind":"failing-recorder","m128":m128,"sp":sp,"cap":cap,"err":err});
+        let mut good = CapRec { left: usize::MAX, err: false, data: Vec::new() };
+        if saver.save_snapshot(SnapshotRecorder::Sna(&mut RecMut(&mut good))).is_err() {
+            return;
+        }
+        let before_regs = rig::regs_view(saver.verif_cpu());
+        let before_ram = all_ram(&saver, m128);
+        let mut bad = CapRec { left: cap, err, data: Vec::new() };
+        let r = std::panic::catch_unwind(std::panic::AssertUnwindSafe(|| saver.save_snapshot(SnapshotRecorder::Sna(&mut RecMut(&mut bad)))));
+        ctx.add_eval(1);
+        match r {
+            Err(_) => {
+                ctx.violation(&format!("C13:failing-recorder:panic:{}", mname), &format!("save_snapshot panicked when the recorder accepted only {} bytes", cap), case);
+                return;
+            }
+            Ok(Ok(())) => {
+                ctx.violation(&format!("C13:failing-recorder:reported-ok:{}", mname), &format!("save_snapshot returned Ok although the recorder accepted only {} bytes", cap), case);
+                return;
+            }
+            Ok(Err(_)) => {}
+        }
+        let after_regs = rig::regs_view(saver.verif_cpu());
+        let after_ram = all_ram(&saver, m128);
+        if after_regs != before_regs || after_ram != before_ram {
+            let d = diff_regs(&before_regs, &after_regs);
+            ctx.violation(
+                &format!("C13:failing-recorder:side-effect:{}", mname),
+                &format!("a save that failed (recorder accepted {} bytes, then {}) changed the running machine: registers {:?} differ, RAM {} (SP={:04x})", cap, if err { "an error" } else { "Ok(0)" }, d, if after_ram != before_ram { "changed" } else { "unchanged" }, sp),
+                case,
+            );
+            return;
+        }
+        let mut again = CapRec { left: usize::MAX, err: false, data: Vec::new() };
+        let _ = saver.save_snapshot(SnapshotRecorder::Sna(&mut RecMut(&mut again)));
+        if again.data != good.data {
+            ctx.violation(&format!("C13:failing-recorder:later-save-differs:{}", mname), "a save after the failed one gives a different file", case);
+        }
+        ctx.outcome(0xFA11 ^ (cap as u64) << 4 ^ (m128 as u64) << 1 ^ err as u64);
+    });
+}
+
+struct RecMut<'a, T: rustzx_core::host::DataRecorder>(&'a mut T);
+impl<'a, T: rustzx_core::host::DataRecorder> rustzx_core::host::DataRecorder for RecMut<'a, T> {
+    fn write(&mut self, buf: &[u8]) -> Result<usize, rustzx_core::error::IoError> {
+        self.0.write(buf)
+    }
+}
+impl<'a, T: rustzx_core::host::DataRecorder> rustzx_core::host::DataRecorder for &mut RecMut<'a, T> {
+    fn write(&mut self, buf: &[u8]) -> Result<usize, rustzx_core::error::IoError> {
+        self.0.write(buf)
+    }
+}
+
 pub fn states(quick: bool) -> Vec<SaveState> {
     let mut v = Vec::new();
     for m128 in [false, true] {
@@ -530,6 +620,12 @@ pub fn run(tier: Tier, seed: u64, replay: Option<String>) -> i32 {
     if let Some(path) = replay {
         let v: serde_json::Value = serde_json::from_slice(&rig::read_file(&path)).expect("replay json");
         let c = &v["case"];
+        if c["kind"] == "failing-recorder" {
+            failing_recorder(&ctx);
+            let n = ctx.violation_classes();
+            println!("replay: {} violation class(es) reproduced", n);
+            return (n > 0) as i32;
+        }
         let s = SaveState {
             m128: c["m128"].as_bool().unwrap(),
             pattern: c["pattern"].as_u64().unwrap() as u8,
@@ -558,13 +654,14 @@ pub fn run(tier: Tier, seed: u64, replay: Option<String>) -> i32 {
         ctx.outcome(d);
         ctx.add_eval(1);
     });
+    failing_recorder(&ctx);
     ctx.add_nontrivial(jobs.len() as u64);
     ctx.sample(state_json(&sts[sts.len() / 2], Receiver::LockedOtherBank));
     ctx.note("save_states", json!(sts.len()));
     ctx.note("receivers", json!(RECEIVERS.iter().map(|r| format!("{:?}", r)).collect::<Vec<_>>()));
     ctx.note("not_judged", json!("IFF1 (not carried by SNA), MEMPTR/Q, 48K PC when the two bytes below SP are ROM, the two stack bytes holding PC in a 48K file"));
     ctx.finish(
-        "save states (running, and halted on a HALT in front of the observer): two register patterns with all 26 register bytes pairwise distinct x IM x IFF2 x border x R,I in {00,7F,80,FF} x (128K) all 256 paging values reached by CPU-executed OUTs (16 in quick) x SP in {8000,4002,4001,4000,0001,0000,FFFF} (48K), RAM position-coded per bank; receivers: same machine now / 1 / 1000 instructions later, fresh, halted, between a DD prefix and its opcode, right after EI, paging locked on another bank, everything different. save_snapshot through a recording DataRecorder, load_snapshot (asset returning short reads of rotating sizes), then: registers, border, paging latch+lock+map, every RAM bank, and 24 lock-step instructions of an observer program against a pristine twin of the saved machine; registers and all RAM of the saving machine before/after the save. distinct_nontrivial = (state, receiver) pairs",
+        "save states (running, and halted on a HALT in front of the observer): two register patterns with all 26 register bytes pairwise distinct x IM x IFF2 x border x R,I in {00,7F,80,FF} x (128K) all 256 paging values reached by CPU-executed OUTs (16 in quick) x SP in {8000,4002,4001,4000,0001,0000,FFFF} (48K), RAM position-coded per bank; receivers: same machine now / 1 / 1000 instructions later, fresh, halted, between a DD prefix and its opcode, right after EI, paging locked on another bank, everything different. save_snapshot through a recording DataRecorder, load_snapshot (asset returning short reads of rotating sizes), then: registers, border, paging latch+lock+map, every RAM bank, and 24 lock-step instructions of an observer program against a pristine twin of the saved machine; registers and all RAM of the saving machine before/after the save, also when the save fails (recorders accepting 0, 1, 26, 27, 28, 16411, total-1 bytes, then Ok(0) or an error). distinct_nontrivial = (state, receiver) pairs",
         false,
         &["hooks: verif_cpu, verif_ram_bank, verif_paging, verif_set_frame_clocks (to keep the INT pulse out of the continuation)"],
     )
